@@ -189,30 +189,30 @@ class Ctx(object):
             self.report({"act": "builder-trace", "trace": trs[int(tid) - 1][:int(line)]}, None, None,
                         "trace rejected by Builder.tla at event %s: %s %s" % (line, why, detail[:200]), phase=name)
 
-    def chain_phase(self, name, ntraces, maxops, variant="asan"):
+    def chain_phase(self, name, ntraces, maxops, variant="asan", ops=None, kinds=("value", "validity", "crash", "exception")):
         """code -> spec for the value operations: chains of real calls on real by-product layouts, every event validated
-        by TraceSession.tla (AkValue's operators applied to the logged operand), preceded by a binding self-test."""
+        by TraceSession.tla (AkValue's operators applied to the logged operand), preceded by a binding self-test.
+        `ops`: the operations this property speaks about (events of other operations are recorded and validated all the same --
+        they make the operands -- but a disagreement there belongs to another property's check); `kinds`: which kinds of
+        disagreement this property speaks about."""
         import copy
         import traces as trmod
         only = os.environ.get("VERIF_ONLY_PHASES")
         if only and name not in only.split(","):
             return
         built = self.build(variant)
-        trs, metas, problems = trmod.record_chains(built["worker"], self.seed * 104729 + 7, ntraces, maxops)
+        trs, metas, problems = trmod.record_chains(built["worker"], self.seed * 104729 + sum(map(ord, self.prop)), ntraces, maxops)
+
+        def mine(m, why):
+            if ops is not None and m.get("act") not in ops and m.get("act") != "chain":
+                return False
+            kind = ("crash" if why.startswith("CRASH") else
+                    "validity" if (why.startswith("result fails validity") or why.startswith("tojson raised")) else
+                    "exception" if why.startswith("not an ordinary exception") else "value")
+            return kind in kinds or why.startswith("harness")
         wd = os.path.join(self.workdir, name)
         # ---- binding self-test: a changed result and a dropped event must be rejected
-        probe = [t for t in trs if len(t) >= 3 and t[0]["ok"] == 1 and t[0]["out"].get("t") == "list"
-                 and t[1]["ok"] == 1 and t[1]["out"] != t[1]["v"]][:2]
-        if len(probe) == 2:
-            bad1 = copy.deepcopy(probe[0])
-            bad1[0]["out"]["xs"] = bad1[0]["out"]["xs"] + [{"t": "int", "x": 424242}]     # the log claims one more element
-            bad1 = bad1[:1]
-            bad2 = copy.deepcopy(probe[1])
-            del bad2[1]                                                                # one call is missing from the log
-            r, summary, rej = trmod.validate_chains([bad1, bad2], os.path.join(wd, "selftest"))
-            if not summary or summary[1] < 2:
-                raise MachineryError("chain validation self-test: corrupted traces were accepted (%r)" % (summary,))
-            self.notes.append("%s: binding self-test: %d of 2 corrupted traces rejected" % (name, summary[1]))
+        self._chain_selftest(name, trs, lambda bad, d: trmod.validate_chains(bad, d), os.path.join(wd, "selftest"))
         r, summary, rej = trmod.validate_chains(trs, wd)
         if not summary:
             sys.stderr.write(r.log[-3000:] + "\n")
@@ -220,16 +220,17 @@ class Ctx(object):
         nev = sum(len(t) for t in trs)
         self.traces += summary[0]
         self.trace_events += nev
-        ops = {}
+        opcount = {}
         for t in trs:
             for e in t:
-                ops[e["op"]] = ops.get(e["op"], 0) + 1
-        self.phases.append({"phase": name, "module": "TraceSession", "traces": summary[0], "events": nev, "events_by_op": ops,
+                opcount[e["op"]] = opcount.get(e["op"], 0) + 1
+        self.phases.append({"phase": name, "module": "TraceSession", "traces": summary[0], "events": nev, "events_by_op": opcount, "reported_ops": sorted(ops) if ops else "all", "reported_kinds": list(kinds),
                             "rejected": summary[1], "problems_seen_without_spec": len(problems), "tlc_wall_s": round(r.wall, 1)})
         if trs:
             self.samples.append({"chain_events": [{"op": e["op"], "args": e["args"], "ok": e["ok"]} for e in trs[0][:4]]})
         for m, why in problems:
-            self.report(m, m.get("worker_case"), None, why, phase=name)
+            if mine(m, why):
+                self.report(m, m.get("worker_case"), None, why, phase=name)
         for tid, line, why, detail in rej:
             m = metas[int(tid) - 1][int(line) - 1]
             ev = trs[int(tid) - 1][int(line) - 1]
@@ -246,7 +247,110 @@ class Ctx(object):
             else:
                 text = "value differs: library %s" % m.get("lib")
             m = dict(m, spec=spec)
-            self.report(m, None, None, text, phase=name)
+            if mine(m, text):
+                self.report(m, None, None, text, phase=name)
+
+    def _chain_selftest(self, name, trs, validate, workdir):
+        """binding self-test of a chain phase: recorded traces are corrupted in two ways -- a logged result gets one more
+        element; one call is deleted from the log -- and TLC must reject at least one of each kind (an operation the
+        specification leaves unspecified accepts any result, so several candidates are corrupted)."""
+        import copy
+        probe = [t for t in trs if len(t) >= 3 and t[0]["ok"] == 1 and t[0]["out"].get("t") == "list"
+                 and t[1]["ok"] == 1 and t[1]["out"] != t[1]["v"]][:8]
+        if len(probe) < 2:
+            self.notes.append("%s: binding self-test skipped (too few suitable traces)" % name)
+            return
+        bads = []
+        for t in probe:
+            b = copy.deepcopy(t[:1])
+            b[0]["out"]["xs"] = b[0]["out"]["xs"] + [{"t": "int", "x": 424242}]       # the log claims one more element
+            bads.append(b)
+        for t in probe:
+            b = copy.deepcopy(t)
+            del b[1]                                                              # one call is missing from the log
+            bads.append(b)
+        r, summary, rej = validate(bads, workdir)
+        tids = {int(x[0]) for x in rej}
+        k1 = len([t for t in tids if t <= len(probe)])
+        k2 = len([t for t in tids if t > len(probe)])
+        if not summary or k1 < 1 or k2 < 1:
+            raise MachineryError("%s: binding self-test: corrupted traces were accepted (%r; changed results rejected %d/%d, "
+                                 "dropped calls rejected %d/%d)" % (name, summary, k1, len(probe), k2, len(probe)))
+        self.notes.append("%s: binding self-test: %d/%d traces with a changed result and %d/%d traces with a dropped call rejected"
+                          % (name, k1, len(probe), k2, len(probe)))
+
+    def pychain_phase(self, name, ntraces, maxops, ops=None, kinds=("value", "validity", "crash", "exception")):
+        """code -> spec for the repository's Python layer (L2): chains of high-level ak.* calls validated by TracePy.tla"""
+        import copy
+        import shutil
+        import l2replay
+        import l2chains
+        only = os.environ.get("VERIF_ONLY_PHASES")
+        if only and name not in only.split(","):
+            return
+        built = self.build_l2()
+        wd = os.path.join(self.workdir, name)
+        outdir = os.path.join(wd, "events")
+        shutil.rmtree(outdir, ignore_errors=True)
+        os.makedirs(outdir)
+        cases = l2chains.gen_cases(self.seed * 15485863 + sum(map(ord, self.prop)), ntraces, maxops, outdir)
+        cpath = os.path.join(wd, "pychain-cases.ndjson")
+        with open(cpath, "w") as f:
+            for c in cases:
+                f.write(json.dumps(c) + "\n")
+        stats, fails = l2replay.replay_l2(built["l2_path"], cpath, ("l2chains", "h_chain"), seed=self.seed, chunk=100)
+        recs = l2chains.collect(outdir)
+        trs = [r["events"] for r in recs if r["events"]]
+        metas = [r["metas"] for r in recs if r["events"]]
+        problems = [(m, why) for r in recs for m, why in r["problems"]]
+        for idx, case, wcase, res, why in fails:           # harness exceptions and dead processes
+            problems.append(({"act": "chain", "py": 1, "worker_case": case}, why))
+
+        def mine(m, why):
+            if ops is not None and m.get("act") not in ops and m.get("act") != "chain":
+                return False
+            kind = ("crash" if why.startswith("CRASH") else
+                    "validity" if (why.startswith("result fails validity") or why.startswith("tojson raised")) else
+                    "exception" if why.startswith("not an ordinary exception") else "value")
+            return kind in kinds or why.startswith("harness") or why.startswith("HARNESS")
+        self._chain_selftest(name, trs, lambda bad, d: l2chains.validate(bad, d), os.path.join(wd, "selftest"))
+        r, summary, rej = l2chains.validate(trs, wd)
+        if not summary:
+            sys.stderr.write(r.log[-3000:] + "\n")
+            raise MachineryError("python-chain validation did not complete")
+        nev = sum(len(t) for t in trs)
+        self.traces += summary[0]
+        self.trace_events += nev
+        opcount = {}
+        for t in trs:
+            for e in t:
+                opcount[e["op"]] = opcount.get(e["op"], 0) + 1
+        self.phases.append({"phase": name, "module": "TracePy", "traces": summary[0], "events": nev, "events_by_op": opcount,
+                            "reported_ops": sorted(ops) if ops else "all", "reported_kinds": list(kinds),
+                            "rejected": summary[1], "problems_seen_without_spec": len(problems), "tlc_wall_s": round(r.wall, 1)})
+        if trs:
+            self.samples.append({"pychain_events": [{"op": e["op"], "args": e["args"], "ok": e["ok"]} for e in trs[0][:4]]})
+        for m, why in problems:
+            if mine(m, why):
+                self.report(m, m.get("worker_case"), None, why, phase=name)
+        for tid, line, why, detail in rej:
+            m = metas[int(tid) - 1][int(line) - 1]
+            ev = trs[int(tid) - 1][int(line) - 1]
+            try:
+                spec = json.loads(detail.replace('\\"', '"'))["spec"]
+            except Exception:
+                spec = {"ok": "?"}
+            if why.startswith("events not linked"):
+                text = "harness: " + why
+            elif spec.get("ok") == 0:
+                text = "spec: must raise; library returned %s" % m.get("lib")
+            elif ev["ok"] == 0:
+                text = "spec: value expected; library raised %s" % m.get("lib")
+            else:
+                text = "value differs: library %s" % m.get("lib")
+            m = dict(m, spec=spec)
+            if mine(m, text):
+                self.report(m, None, None, text, phase=name)
 
     def _take_samples(self, path, k=2):
         if len(self.samples) >= 6:
@@ -265,7 +369,8 @@ class Ctx(object):
     def report(self, case, wcase, res, why, phase=""):
         import re as _re
         m = _re.match(r"^\w+ via the Python layer: (.*)$", why, _re.S)
-        fid = match_finding(self.findings, case, m.group(1) if m else why)
+        mcase = dict(case, _wcase=wcase) if (wcase and isinstance(case, dict)) else case     # matchers may look at the physical encoding used
+        fid = match_finding(self.findings, mcase, m.group(1) if m else why)
         if fid is not None:
             self.known_hits[fid] = self.known_hits.get(fid, 0) + 1
             return
